@@ -81,13 +81,21 @@ Inductive ekind :=
 | KToolStarted (id : N)
 | KToolStdout (id : N) (c : str)
 | KToolStderr (id : N) (c : str)
-| KToolEnded (id : N)
+  (* arts: the artifact ids (64 hex digits, here as numbers) found anywhere inside the frame's `artifacts` JSON *)
+| KToolEnded (id : N) (arts : list N)
 | KToolFailed (id : N)
-| KTaskSpawned (id : N)
-| KTaskStatus (id : N) (st : N)          (* 0 queued 1 running 2 exited 3 cancelled 4 failed *)
-| KTaskDelta (id : N) (stream : N) (c : str)  (* 0 stdout 1 stderr 2 pty *)
+| KTaskSpawned (id : N) (arts : list N)
+| KTaskStatus (id : N) (st : N) (arts : list N)  (* 0 queued 1 running 2 exited 3 cancelled 4 failed *)
+| KTaskDelta (id : N) (stream : N) (c : str) (arts : list N)  (* 0 stdout 1 stderr 2 pty *)
 | KCheckpointFailed
-| KProviderEvent (invalid_json errors resp_errors : bool)
+| KProviderEvent (invalid_json errors resp_errors : bool) (is_openresponses : bool)
+| KContextSelecting                          (* continuity_context_selection_decided *)
+| KContextCompiled (bundle : N)              (* continuity_context_compiled: bundle artifact id *)
+| KCkptCreated (summary : N)                 (* continuity_compaction_checkpoint_created: summary artifact id *)
+| KOrRequest (body : N)                      (* openresponses_request: body artifact id *)
+| KOrRequestStarted
+| KOrResponseHeaders
+| KOrResponseFirstByte
 | KJobSpawned (id : N)
 | KJobEnded (id : N)
 | KOther.
@@ -98,13 +106,15 @@ Definition is_error_event (k : ekind) : bool :=
   match k with
   | KToolFailed _ => true
   | KCheckpointFailed => true
-  | KTaskStatus _ st => st =? 4
-  | KProviderEvent a b c => a || b || c
+  | KTaskStatus _ st _ => st =? 4
+  | KProviderEvent a b c _ => a || b || c
   | _ => false
   end.
 
-Record tool := { t_out : str; t_err : str; t_status : N }.   (* 0 running 1 ended 2 failed *)
-Record task := { k_status : N; k_out : str; k_err : str; k_pty : str }.
+(* sets of artifact ids are association lists with unit values (BTreeSet order = numeric order of the ids) *)
+Definition idset := list (N * unit).
+Record tool := { t_out : str; t_err : str; t_status : N; t_arts : idset }.   (* 0 running 1 ended 2 failed *)
+Record task := { k_status : N; k_out : str; k_err : str; k_pty : str; k_arts : idset }.
 
 (* sorted association lists keyed by N (BTreeMap order; the harness uses fixed-width ids) *)
 Fixpoint map_put {V} (k : N) (v : V) (m : list (N * V)) : list (N * V) :=
@@ -130,6 +140,9 @@ Record tui := {
   st_tools : list (N * tool);
   st_tasks : list (N * task);
   st_jobs : list (N * N);                  (* job id -> 0 running / 1 ended *)
+  st_artifacts : idset;
+  st_ctx : option (N * option N);          (* context: (0 selecting | 1 compiled, bundle artifact id) *)
+  st_or_req : option N; st_or_headers : option N; st_or_first_byte : option N; st_or_first_pev : option N;
   st_start : option N;
   st_first_out : option N;
   st_end : option N;
@@ -142,6 +155,8 @@ Record tui := {
 Definition tui_new (max_frames : nat) (max_out : N) (auto_follow : bool) : tui :=
   {| st_frames := fs_new max_frames; st_selected := None; st_auto_follow := auto_follow;
      st_output := []; st_truncated := false; st_tools := []; st_tasks := []; st_jobs := [];
+     st_artifacts := []; st_ctx := None;
+     st_or_req := None; st_or_headers := None; st_or_first_byte := None; st_or_first_pev := None;
      st_start := None; st_first_out := None; st_end := None; st_last_err := None;
      st_last_ev := None; st_max_out := N.max max_out 1; st_max_prev := 8192 |}.
 
@@ -156,26 +171,28 @@ Definition push_user_prompt (maxb : N) (ot : str * bool) (input : str) : str * b
 
 Definition prev_push (maxb : N) (p c : str) : str := fst (push_bounded maxb p c).
 
+Definition set_add_all (xs : list N) (m : idset) : idset := fold_left (fun acc x => map_put x tt acc) xs m.
+
 Definition upd_tools (s : tui) (k : ekind) : list (N * tool) :=
   let m := st_tools s in
   let mp := st_max_prev s in
   match k with
-  | KToolStarted id => map_put id {| t_out := []; t_err := []; t_status := 0 |} m
+  | KToolStarted id => map_put id {| t_out := []; t_err := []; t_status := 0; t_arts := [] |} m
   | KToolStdout id c =>
     match map_get id m with
-    | Some t => map_put id {| t_out := prev_push mp (t_out t) c; t_err := t_err t; t_status := t_status t |} m
+    | Some t => map_put id {| t_out := prev_push mp (t_out t) c; t_err := t_err t; t_status := t_status t; t_arts := t_arts t |} m
     | None => m end
   | KToolStderr id c =>
     match map_get id m with
-    | Some t => map_put id {| t_out := t_out t; t_err := prev_push mp (t_err t) c; t_status := t_status t |} m
+    | Some t => map_put id {| t_out := t_out t; t_err := prev_push mp (t_err t) c; t_status := t_status t; t_arts := t_arts t |} m
     | None => m end
-  | KToolEnded id =>
+  | KToolEnded id arts =>
     match map_get id m with
-    | Some t => map_put id {| t_out := t_out t; t_err := t_err t; t_status := 1 |} m
+    | Some t => map_put id {| t_out := t_out t; t_err := t_err t; t_status := 1; t_arts := set_add_all arts (t_arts t) |} m
     | None => m end
   | KToolFailed id =>
     match map_get id m with
-    | Some t => map_put id {| t_out := t_out t; t_err := t_err t; t_status := 2 |} m
+    | Some t => map_put id {| t_out := t_out t; t_err := t_err t; t_status := 2; t_arts := t_arts t |} m
     | None => m end
   | _ => m
   end.
@@ -184,21 +201,37 @@ Definition upd_tasks (s : tui) (k : ekind) : list (N * task) :=
   let m := st_tasks s in
   let mp := st_max_prev s in
   match k with
-  | KTaskSpawned id => map_put id {| k_status := 0; k_out := []; k_err := []; k_pty := [] |} m
-  | KTaskStatus id st =>
+  | KTaskSpawned id arts =>
+    map_put id {| k_status := 0; k_out := []; k_err := []; k_pty := []; k_arts := set_add_all arts [] |} m
+  | KTaskStatus id st arts =>
     match map_get id m with
-    | Some t => map_put id {| k_status := st; k_out := k_out t; k_err := k_err t; k_pty := k_pty t |} m
-    | None => map_put id {| k_status := st; k_out := []; k_err := []; k_pty := [] |} m
+    | Some t => map_put id {| k_status := st; k_out := k_out t; k_err := k_err t; k_pty := k_pty t;
+                              k_arts := set_add_all arts (k_arts t) |} m
+    | None => map_put id {| k_status := st; k_out := []; k_err := []; k_pty := []; k_arts := set_add_all arts [] |} m
     end
-  | KTaskDelta id stream c =>
+  | KTaskDelta id stream c arts =>
     match map_get id m with
     | Some t =>
-      if stream =? 0 then map_put id {| k_status := k_status t; k_out := prev_push mp (k_out t) c; k_err := k_err t; k_pty := k_pty t |} m
-      else if stream =? 1 then map_put id {| k_status := k_status t; k_out := k_out t; k_err := prev_push mp (k_err t) c; k_pty := k_pty t |} m
-      else map_put id {| k_status := k_status t; k_out := k_out t; k_err := k_err t; k_pty := prev_push mp (k_pty t) c |} m
+      let a := set_add_all arts (k_arts t) in
+      if stream =? 0 then map_put id {| k_status := k_status t; k_out := prev_push mp (k_out t) c; k_err := k_err t; k_pty := k_pty t; k_arts := a |} m
+      else if stream =? 1 then map_put id {| k_status := k_status t; k_out := k_out t; k_err := prev_push mp (k_err t) c; k_pty := k_pty t; k_arts := a |} m
+      else map_put id {| k_status := k_status t; k_out := k_out t; k_err := k_err t; k_pty := prev_push mp (k_pty t) c; k_arts := a |} m
     | None => m
     end
   | _ => m
+  end.
+
+(* the global artifact set: ids are added only where the frame reaches an entry (tool_ended / task output of an
+   unknown id add nothing), plus the three frame kinds that name an artifact directly *)
+Definition upd_artifacts (s : tui) (k : ekind) : idset :=
+  let a := st_artifacts s in
+  match k with
+  | KToolEnded id arts => match map_get id (st_tools s) with Some _ => set_add_all arts a | None => a end
+  | KTaskSpawned _ arts => set_add_all arts a
+  | KTaskStatus _ _ arts => set_add_all arts a
+  | KTaskDelta id _ _ arts => match map_get id (st_tasks s) with Some _ => set_add_all arts a | None => a end
+  | KContextCompiled x | KCkptCreated x | KOrRequest x => map_put x tt a
+  | _ => a
   end.
 
 (* continuity_job_spawned / continuity_job_ended both insert (replace) the entry of that job id *)
@@ -217,12 +250,12 @@ Definition update (s : tui) (e : ev) : tui :=
             | KOutputDelta d => out_push (st_max_out s) ot0 d
             | _ => ot0 end in
   let start := match k with
-               | KSessionStarted _ | KTaskSpawned _ => or_set (st_start s) (ets e)
+               | KSessionStarted _ | KTaskSpawned _ _ => or_set (st_start s) (ets e)
                | _ => st_start s end in
   let fo := match k with KOutputDelta _ => or_set (st_first_out s) (ets e) | _ => st_first_out s end in
   let en := match k with
             | KSessionEnded => or_set (st_end s) (ets e)
-            | KTaskStatus _ st => if (st =? 2) || (st =? 3) || (st =? 4) then or_set (st_end s) (ets e) else st_end s
+            | KTaskStatus _ st _ => if (st =? 2) || (st =? 3) || (st =? 4) then or_set (st_end s) (ets e) else st_end s
             | _ => st_end s end in
   {| st_frames := fs_push (st_frames s) {| fseq := eseq e; fid := eident e |};
      st_selected := if st_auto_follow s then Some (eseq e)
@@ -230,6 +263,17 @@ Definition update (s : tui) (e : ev) : tui :=
      st_auto_follow := st_auto_follow s;
      st_output := fst ot; st_truncated := snd ot;
      st_tools := upd_tools s k; st_tasks := upd_tasks s k; st_jobs := upd_jobs s k;
+     st_artifacts := upd_artifacts s k;
+     st_ctx := match k with
+               | KContextSelecting => Some (0, None)
+               | KContextCompiled b => Some (1, Some b)
+               | _ => st_ctx s end;
+     st_or_req := match k with KOrRequestStarted => or_set (st_or_req s) (ets e) | _ => st_or_req s end;
+     st_or_headers := match k with KOrResponseHeaders => or_set (st_or_headers s) (ets e) | _ => st_or_headers s end;
+     st_or_first_byte := match k with KOrResponseFirstByte => or_set (st_or_first_byte s) (ets e) | _ => st_or_first_byte s end;
+     st_or_first_pev := match k with
+                        | KProviderEvent _ _ _ true => or_set (st_or_first_pev s) (ets e)
+                        | _ => st_or_first_pev s end;
      st_start := start; st_first_out := fo; st_end := en;
      st_last_err := if is_error_event k then Some (eseq e) else st_last_err s;
      st_last_ev := Some (ets e);
@@ -245,10 +289,14 @@ Definition selected_event (s : tui) : option frame :=
 Definition enc_opt (o : option N) : list N := match o with None => [0] | Some x => [1; x] end.
 Definition enc_str (s : str) : list N := nlen s :: s.
 Definition enc_bool (b : bool) : list N := [if b then 1 else 0].
+Definition enc_set (m : idset) : list N := enc_str (map fst m).
 Definition enc_tool (kt : N * tool) : list N :=
-  fst kt :: t_status (snd kt) :: enc_str (t_out (snd kt)) ++ enc_str (t_err (snd kt)).
+  fst kt :: t_status (snd kt) :: enc_str (t_out (snd kt)) ++ enc_str (t_err (snd kt)) ++ enc_set (t_arts (snd kt)).
 Definition enc_task (kt : N * task) : list N :=
-  fst kt :: k_status (snd kt) :: enc_str (k_out (snd kt)) ++ enc_str (k_err (snd kt)) ++ enc_str (k_pty (snd kt)).
+  fst kt :: k_status (snd kt) :: enc_str (k_out (snd kt)) ++ enc_str (k_err (snd kt)) ++ enc_str (k_pty (snd kt))
+  ++ enc_set (k_arts (snd kt)).
+Definition enc_ctx (c : option (N * option N)) : list N :=
+  match c with None => [0] | Some (st, b) => 1 :: st :: enc_opt b end.
 
 Definition observe (s : tui) (probes : list N) : list N :=
   let fs := st_frames s in
@@ -259,6 +307,8 @@ Definition observe (s : tui) (probes : list N) : list N :=
   ++ nlen (st_tools s) :: concat (map enc_tool (st_tools s))
   ++ nlen (st_tasks s) :: concat (map enc_task (st_tasks s))
   ++ nlen (st_jobs s) :: concat (map (fun kj => [fst kj; snd kj]) (st_jobs s))
+  ++ enc_set (st_artifacts s) ++ enc_ctx (st_ctx s)
+  ++ enc_opt (st_or_req s) ++ enc_opt (st_or_headers s) ++ enc_opt (st_or_first_byte s) ++ enc_opt (st_or_first_pev s)
   ++ enc_opt (st_start s) ++ enc_opt (st_first_out s) ++ enc_opt (st_end s)
   ++ enc_opt (st_last_err s) ++ enc_opt (st_last_ev s)
   ++ concat (map (fun q => enc_opt (option_map fid (fs_get_by_seq fs q))
